@@ -1,4 +1,4 @@
-import SslModel.Lemmas.TyTrans
+import SslModel.Lemmas.TyJoin
 /-!
 # C10 — the subtype relation (`Type::matches`) obeys its laws
 
@@ -8,9 +8,12 @@ Statements are about `Ssl.Ty.sub`, the hand model of `Type::matches` (arms in so
 keys are distinct — exactly what `from_str`, `|` and the checker can build).
 Proved here: reflexivity and **transitivity** (`matches_trans`, `eqv_trans`; by induction on the
 total size of the three types), symmetry of `==` (`eqv_symm`), least / greatest element, the variance equations of every constructor,
-invariance of `mut`, the two union laws, and that `matches` respects `==` on both sides.  Soundness for
-first-order values is `C01.matches_sound_partial`.  The join / meet (`concat` / `conjoin`) laws are not
-yet proved; they are exercised on the implementation by the law oracle of the `type` stream.
+invariance of `mut`, the two union laws, that `==` implies `matches` and `matches` respects `==` on both
+sides, that `concat` (the join) is the least upper bound of its operands, and that `conjoin` (the
+**meet** used to intersect parameter types) **is a lower bound of its arguments**; both preserve
+well-formedness.  Soundness for values is `C01.matches_sound`.  With this every clause of the property is
+a theorem about the model; the model is tied to `src/variable/type.rs` by the `type` stream, which also
+evaluates all laws on the real Type API.
 -/
 namespace Ssl.C10
 open Ssl Ssl.Ty
@@ -109,6 +112,39 @@ theorem eqv_trans (a b c : Ty) (h1 : eqv a b = true) (h2 : eqv b c = true) : eqv
     with `eqv_refl` and `eqv_trans`, `==` is an equivalence relation -/
 theorem eqv_symm (a b : Ty) (wa : wf a = true) (wb : wf b = true) (h : eqv a b = true) : eqv b a = true :=
   Ty.eqv_symm a b wa wb h
+
+/-- equal types match each other, and `matches` cannot tell equal types apart -/
+theorem eq_implies_matches (a b : Ty) (wa : wf a = true) (wb : wf b = true) (h : eqv a b = true) : sub a b = true :=
+  Ty.sub_of_eqv a b wa wb h
+
+theorem matches_respects_eq_left (a a' b : Ty) (wa : wf a = true) (wa' : wf a' = true) (wb : wf b = true)
+    (he : eqv a a' = true) (h : sub a b = true) : sub a' b = true := Ty.sub_congr_left a a' b wa wa' wb he h
+
+theorem matches_respects_eq_right (a b b' : Ty) (wa : wf a = true) (wb : wf b = true) (wb' : wf b' = true)
+    (he : eqv b b' = true) (h : sub a b = true) : sub a b' = true := Ty.sub_congr_right a b b' wa wb wb' he h
+
+/-- `concat` (what `|` builds; the checker's join of branches, elements, results) is an upper bound … -/
+theorem concat_upper_bound (a b : Ty) (wa : wf a = true) (wb : wf b = true) :
+    sub a (concat a b) = true ∧ sub b (concat a b) = true := Ty.concat_upper a b wa wb
+
+/-- … the least one … -/
+theorem concat_least_upper_bound (a b c : Ty) (wa : wf a = true) (wb : wf b = true)
+    (ha : sub a c = true) (hb : sub b c = true) : sub (concat a b) c = true := Ty.concat_least a b c wa wb ha hb
+
+/-- … and well-formed -/
+theorem concat_wellformed (a b : Ty) (wa : wf a = true) (wb : wf b = true) : wf (concat a b) = true :=
+  Ty.concat_wf a b wa wb
+
+/-- **the meet used to intersect parameter types is a lower bound of its arguments** -/
+theorem meet_lower_bound (a b : Ty) (wa : wf a = true) (wb : wf b = true) :
+    sub (conjoin a b) a = true ∧ sub (conjoin a b) b = true := Ty.conjoin_lower a b wa wb
+
+theorem meet_wellformed (a b : Ty) (wa : wf a = true) (wb : wf b = true) : wf (conjoin a b) = true :=
+  Ty.conjoin_wf a b wa wb
+
+/-- the meet of two function types takes the join of the parameters: `(int)->int ∧ (string)->int` -/
+example : conjoin (.fn [.int] .int) (.fn [.str] .int) = .fn [.multi [.int, .str]] .int := by
+  rw [conjoin.eq_def]; simp [eqv, eqvL, conjoin, concat, List.zipWith]
 
 /-- between non-union types (left not `!`, right not `any`) only types built by the same constructor match -/
 theorem matches_same_constructor {a b : Ty} (ha1 : isMulti a = false) (ha2 : isNever a = false)
